@@ -422,18 +422,28 @@ func (t *threadSafeList[T]) MoveAfter(element, position ListElement[T]) {
 
 // PushBackList inserts the values of the other List at the back of this List.
 func (t *threadSafeList[T]) PushBackList(other List[T]) {
+	// read the other list before locking: it may be this list (container/list allows l.PushBackList(l))
+	values := other.Values()
+
 	t.mutex.Lock()
 	defer t.mutex.Unlock()
 
-	t.list.PushBackList(other)
+	for _, value := range values {
+		t.list.PushBack(value)
+	}
 }
 
 // PushFrontList inserts the values of the other List at the front of this List.
 func (t *threadSafeList[T]) PushFrontList(other List[T]) {
+	// read the other list before locking: it may be this list (container/list allows l.PushFrontList(l))
+	values := other.Values()
+
 	t.mutex.Lock()
 	defer t.mutex.Unlock()
 
-	t.list.PushFrontList(other)
+	for i := len(values) - 1; i >= 0; i-- {
+		t.list.PushFront(values[i])
+	}
 }
 
 // ForEach executes the given callback for the value of each element in the List. The iteration is aborted if the
